@@ -165,3 +165,38 @@ def mon_c06(world, ev, before, rec, after):
                 out.append({'what': 'pull request passed the build gate with a non-green integration tip',
                             'pr': p['id'], 'tip': n, 'sha': sha, 'status': st, 'outcome': rec['status']})
     return out
+
+
+def mon_c13(world, ev, before, rec, after):
+    """The worker survives every job and leaves the dispatcher's bookkeeping as it found it: process_task returned,
+    the job is recorded as done with a status, no 'current job' marker is left (checked on fault-free jobs)."""
+    if rec.get('fault'):
+        return []
+    out = []
+    if rec.get('worker_died'):
+        out.append({'what': 'an exception escaped process_task: the worker thread of the server ends, every request '
+                            'accepted afterwards stays pending', 'exception': rec['worker_died']})
+    elif rec.get('worker_clean') is False:
+        out.append({'what': "the job left the dispatcher's bookkeeping changed ('current job' marker / done list)"})
+    elif 'done' in rec and not rec['done']:
+        out.append({'what': 'the job was processed but is not recorded as finished', 'status': rec.get('status')})
+    return out
+
+
+def mon_c20_queue_jobs(world, ev, before, rec, after):
+    """C20, last clause, also when a git command of the job fails: queue rebuild and delete jobs remove only q/*
+    branches - no other branch and no tag is created, moved or deleted by them."""
+    if ev.get('e') != 'job_api' or ev.get('kind') not in ('delete_queues', 'rebuild_queues'):
+        return []
+    out = []
+    b, a = before['refs'], after['refs']
+    for n in sorted(set(b) | set(a)):
+        if n.startswith('q/'):
+            continue
+        if b.get(n) != a.get(n):
+            out.append({'what': 'a queue %s job changed a branch outside q/*' % ev['kind'].split('_')[0], 'ref': n,
+                        'before': b.get(n), 'after': a.get(n), 'status': rec.get('status'),
+                        'failed_git_command': rec.get('fault_command')})
+    if before.get('tags') != after.get('tags'):
+        out.append({'what': 'a queue %s job changed the tags' % ev['kind'].split('_')[0], 'status': rec.get('status')})
+    return out
